@@ -20,6 +20,10 @@ CHECKS = {
    technique="differential property-based testing: interpreter (source and saved .ao) versus gcc-linked C executable over generated programs x levels",
    text="Generated programs, including ones ending by uncaught exception, failed assertion, never or error, run at -Q{0,1,2,3,5,9} under -Ginterp (from .as and from the saved .ao) and as executable; normalised stdout, exit class and the Unhandled Exception text must agree.",
    note="Only tool-emitted text is normalised away.", design="4 C03"),
+ "C06": dict(level="exploration", engine="hypothesis-subprocess",
+   technique="property-based testing with a catalogue of single-fault mutants: each generated well-typed program must be accepted, each guaranteed-illegal mutant (planted at enumerated sites) must be rejected with a positioned error and no output file",
+   text="Well-typed generated programs are compiled with -Fao -Fc -Ffm -Flsp and must be accepted with all outputs; nine catalogue faults, illegal by construction (nominal domain no operation accepts, fresh identifiers), are planted in the main block and in function bodies and must be rejected with exit != 0, a positioned (Error) line and no output files.",
+   note="No particular message text is demanded.", design="4 C06"),
  "C07": dict(level="exploration", engine="hypothesis-subprocess",
    technique="mutation-based fuzzing driven by Hypothesis recipes (token/bracket/pile/escape/directive mutations of corpus and generated sources, random bytes) with a validity-predicate oracle",
    text="Every generated input is compiled with -Fap -Fao; the compiler must exit without signal or internal fault, within the CPU limit, and exit non-zero exactly when it printed an error. Fault sites already known are listed as known findings by call site.",
@@ -36,6 +40,14 @@ CHECKS = {
    technique="stateful model-based property testing (rapidcheck histories, fork-isolated, reference model of live blocks) + exhaustive enumeration of short histories",
    text="Random alloc/free/resize/recode/link/root/gc histories (<=200 steps quick, up to 1e5 thorough) and all histories of length <=5 (thorough <=6) over a 10-letter alphabet run on the real allocator in both build flavours; after every step alignment, size, disjointness, byte patterns, code, survival of reachable blocks and stoAudit are checked.",
    note="Trusted: the C++ model; survival asserted only for blocks reachable from static roots the marker scans.", design="4 C10"),
+ "C12": dict(level="exploration", engine="hypothesis-subprocess",
+   technique="differential property-based testing: generated programs (Java-supported subset) x levels, javac + java against the shipped jars versus the interpreter",
+   text="Generated programs are compiled with -Fjava -Jmain at -Q1/-Q3/-Q9, compiled by javac against foamj.jar:foam.jar:aldor.jar and run; '@' lines and exit class must equal the interpreter's.",
+   note="try/catch is outside the supported subset (genjava: not implemented); three genjava defects are listed known findings and excluded by construction.", design="4 C12"),
+ "C13": dict(level="exploration", engine="hypothesis-subprocess",
+   technique="differential property-based testing with error interleavings: form sequences fed to aldor -Gloop (erroneous forms from the ill-typed catalogue inserted at drawn positions) versus aldor -Ginterp on the clean file",
+   text="Generated sequences of definitions and output statements are fed to the interactive loop one per line, with rejected forms interleaved; the marker lines must equal those of batch interpretation of the clean sequence and every erroneous form must be reported.",
+   note="Two loop-only runtime faults are listed known findings matched by fault site.", design="4 C13"),
  "C17": dict(level="fault_enumeration", engine="fault-enumeration",
    technique="exhaustive enumeration of truncation points plus seeded single-byte substitutions of valid .ao/.fm/.al files, validity-predicate oracle over five consumers",
    text="Every truncation length of the object file (each point at which a writer could have died) and substitutions at every header/section-table offset and seeded body offsets are fed to five consumers; each must reproduce the intact outputs byte for byte or refuse with a diagnostic and non-zero status, never fault, hang or silently differ.",
@@ -95,7 +107,7 @@ def main():
             {"name": "rapidcheck-stateful", "path": "harness/containers_rc.cc", "serves_properties": ["C10", "C20"], "kind_free_text": "rapidcheck-generated operation histories against reference models"},
             {"name": "exhaustive-loop+hypothesis", "path": "harness/xfloat_check.cc", "serves_properties": ["C19"], "kind_free_text": "exhaustive bit-pattern loops; Hypothesis-generated literals through the compiler"},
             {"name": "fault-enumeration", "path": "vt/props/c17.py", "serves_properties": ["C17", "C18"], "kind_free_text": "enumerated damage / write-fault points applied to real compiler runs"},
-            {"name": "hypothesis-subprocess", "path": "vt/", "serves_properties": ["C01", "C02", "C03", "C07", "C08", "C09"], "kind_free_text": "Hypothesis-generated programs/inputs driving the compiler under test as a subprocess"},
+            {"name": "hypothesis-subprocess", "path": "vt/", "serves_properties": ["C01", "C02", "C03", "C06", "C07", "C08", "C09", "C12", "C13"], "kind_free_text": "Hypothesis-generated programs/inputs driving the compiler under test as a subprocess"},
         ],
         "checks": checks,
         "not_applicable": na,
